@@ -5,7 +5,9 @@
 From Coq Require Import String List NArith ZArith Bool Permutation.
 Import ListNotations.
 Require Import Verif.Export.OasTypes Verif.Export.OasExport Verif.Export.OasCurrent Verif.Export.GoMapProps
-               Verif.Export.OasExportProps Verif.Export.OasParamProps Verif.Gen.ExportTables.
+               Verif.Export.OasExportProps Verif.Export.OasParamProps Verif.Export.SwExport Verif.Export.SwExportProps
+               Verif.Export.SwRoundTrip Verif.Gen.ExportTables.
+Require Verif.Foreign.NameEscape Verif.Foreign.ImportSpec Verif.Foreign.ImportRun.
 
 (* ---- obligations against the source (break when an arm of exportType, the rule filling `required`, the assignment
    of array items, a sort before emission, or one of the repairs changes) *)
@@ -53,10 +55,11 @@ Proof. exact export_complete_endpoints. Qed.
 Print Assumptions C12_export_complete_endpoints.
 
 (* ... and that operation lists every path, query and header parameter of the endpoint (parameter names distinct) with
-   its location, required exactly when the type is not optional, and the schema of its type.  Partial: the request body
-   and the responses of the operation are what export_operation computes (correspondence + oracle, no separate
-   specification). *)
-Theorem C12_export_complete_params_partial : forall a n e, NoDup (param_names e) ->
+   its location, required exactly when the type is not optional, and the schema of its type; its request body is the one
+   ~body parameter; every return statement is the response under its status key with the schema of its payload type.
+   Together: C12_export_complete_params (full for endpoints with distinct parameter names, one body parameter,
+   distinct response names and status keys - each hypothesis excludes a collision in which the code keeps one writer). *)
+Theorem C12_export_complete_params : forall a n e, NoDup (param_names e) ->
   let op := export_operation fixed3 ido (snd (build_ep fixed3 ido a (n,e))) in
   (forall p, In p (e_url e) ->
      In {| op_name := q_name p; op_in := "path"; op_required := negb (sty_opt (q_ty p));
@@ -68,7 +71,35 @@ Theorem C12_export_complete_params_partial : forall a n e, NoDup (param_names e)
      In {| op_name := sp_name p; op_in := "header"; op_required := negb (sty_opt (sp_ty p));
            op_schema := export_type fixed3 ido (map_type ido (sp_ty p)) |} (o_params op)).
 Proof. exact export_complete_params. Qed.
-Print Assumptions C12_export_complete_params_partial.
+Print Assumptions C12_export_complete_params.
+
+Theorem C12_export_complete_body : forall a n e p, NoDup (param_names e) ->
+  In p (e_params e) -> sp_body p = true -> (forall q, In q (e_params e) -> sp_body q = true -> q = p) ->
+  o_body (export_operation fixed3 ido (snd (build_ep fixed3 ido a (n,e)))) =
+    Some {| ob_required := negb (sty_opt (sp_ty p)); ob_schema := Some (export_type fixed3 ido (map_type ido (sp_ty p))) |}.
+Proof. exact export_complete_body. Qed.
+Print Assumptions C12_export_complete_body.
+
+Theorem C12_export_complete_responses : forall a n e r,
+  NoDup (map (ret_key fixed3 (a_types a) (a_name a) (a_n200 a)) (e_rets e)) ->
+  NoDup (map (fun r => resp_code (ret_val fixed3 (a_types a) (a_name a) r)) (e_rets e)) ->
+  In r (e_rets e) ->
+  mget (resp_code (ret_val fixed3 (a_types a) (a_name a) r)) (o_resps (export_operation fixed3 ido (snd (build_ep fixed3 ido a (n,e))))) =
+    Some (rvalue_of fixed3 (ret_val fixed3 (a_types a) (a_name a) r)).
+Proof. exact export_complete_responses. Qed.
+Print Assumptions C12_export_complete_responses.
+
+(* non-vacuity: a body parameter and two returns (`return ok <: T`, `return 404`) *)
+Example C12_body_responses_nonvacuous :
+  let a := {| a_name := 1; a_n200 := 2; a_types := [(3, STuple false false [])]; a_endpoints := [] |}%N in
+  let e := {| e_key := KRest "POST" 9; e_params := [{| sp_name := 5; sp_body := true; sp_ty := SRef true {| r_path := [3%N]; r_app := None; r_ctx := None |} |}];
+              e_query := []; e_url := [];
+              e_rets := [ {| rt_bare := false; rt_name := 6; rt_isok := true; rt_atoi := None; rt_shape := RSimple (RPlain 3 "T") |};
+                          {| rt_bare := true; rt_name := 7; rt_isok := false; rt_atoi := Some 404%Z; rt_shape := RSimple (RPlain 7 "404") |} ] |}%N in
+  let op := export_operation fixed3 ido (snd (build_ep fixed3 ido a (8%N, e))) in
+  o_body op = Some {| ob_required := false; ob_schema := Some (Sch 3%N "" "" None [] [] []) |} /\
+  o_resps op = [(0%N, RNoContent); (200%N, RContent (Some (Sch 3%N "" "" None [] [] []))); (404%N, RContent None)].
+Proof. split; reflexivity. Qed.
 
 (* non-vacuity: an endpoint with a path, an optional query and a header parameter *)
 Example C12_params_nonvacuous :
@@ -120,3 +151,22 @@ Print Assumptions C12_map_built_by_loop_is_order_free.
 Theorem C12_sorted_permutation_unique : forall l l', Permutation l l' -> nsort l = nsort l'.
 Proof. exact nsort_perm. Qed.
 Print Assumptions C12_sorted_permutation_unique.
+
+(* ---- Swagger 2 type export (model SwExport.populate_types, tied by correspondence on every case): a definition has
+   properties only if the type is a tuple or a relation *)
+Theorem C12_swagger_non_record_no_properties : forall o n t defs defs',
+  type_step fixed2 o (Ok2 defs) (n, t) = Ok2 defs' -> is_record (tt t) = false -> named_like_record (tt t) = false ->
+  defs' = defs \/ exists m, defs' = mset n {| d_main := m; d_props := [] |} defs.
+Proof. exact sw_non_record_no_properties. Qed.
+Print Assumptions C12_swagger_non_record_no_properties.
+
+(* ---- export then import (Swagger 2 path, importer = C11's model Foreign.ImportSpec.import_oas2): REFUTED - a type with
+   three non-optional fields int / string / bool comes back with all fields optional and the int as FLOAT.  For OpenAPI 3
+   no theorem is possible today: importer.Factory selects the arr.ai importer, of which there is no Coq model. *)
+Theorem C12_export_import_roundtrip_swagger_refuted :
+  sw_roundtrip nm_w pet =
+    Some [(NameEscape.of_string "Pet",
+           ImportSpec.TTuple [(NameEscape.of_string "id", fld "FLOAT"); (NameEscape.of_string "name", fld "STRING");
+                              (NameEscape.of_string "ok", fld "BOOL")])].
+Proof. exact export_import_roundtrip_swagger_refuted. Qed.
+Print Assumptions C12_export_import_roundtrip_swagger_refuted.
